@@ -47,6 +47,14 @@ CLAIMS = {
             'Grid formulas compared with the affine form for nx=2..8 (both scales, all accepted scale names); vector overload guards; Get_i interpreted for nx=2..12 (thorough: ..33) with the query in every order relation to symbolic strictly increasing nodes: '
             'only comparisons against node values are admitted, a bracketing index must be returned, outside x rejected on both sides. Bounded in nx, hence level other.',
             'static analysis: abstract interpretation with symbolic ordered grids; comparison-shape rule for the bisection'),
+    'C18': ('other',
+            'Structural necessary conditions (schedules are not explored; bit-identity declined): every object with static or thread storage is top-level const or thread_local (159 objects, 32 thread-local); no thread-local scratch escapes; '
+            'the const query methods of the solver perform no write reachable from this; calls with process-global side effects only inside once-only static const initialisers; every thread-local owner of heap blocks has a releasing destructor (1 known finding: the block cache).',
+            'static analysis: storage-class and effect audit over the type-resolved AST (who-may-write / who-may-call rules)'),
+    'C19': ('other',
+            'Structural necessary conditions; linearizability under all interleavings is declined. On both compilations of Cache.h (the atomic one via a driver TU): record typestate (no access after publish), conservation of records after every operation, '
+            'exhaustive single-threaded sequences up to length 7 (N=4) / from fills 0,1,31,32 (N=32) against a bounded-LIFO model, CAS-loop shape (syntactic) and a forced failed exchange with one interposed concurrent operation at either CAS.',
+            'static analysis: local typestate and conservation by abstract interpretation with summarised atomics; syntactic CAS-loop rule'),
     'C06': ('proof',
             'All 35 plane-rotation kernels (917 slot tables) are compared with R^dagger A R as trigonometric polynomials modulo sin^2+cos^2=1; '
             'the rotation sequences of RotateToB0/B1 are compared with the factor order of GetTransformationMatrix, each factor with the plane rotation '
